@@ -70,6 +70,15 @@ object_group_map = sqlalchemy.Table(
 )
 
 
+def _any_set(fields):
+    """
+    Check if a dictionary of stored fields holds at least one value, where
+    None and the empty dictionary mean "not set" (False, 0, b'' and '' are
+    values).
+    """
+    return any(v is not None and v != {} for v in fields.values())
+
+
 class ManagedObject(sql.Base):
     """
     The abstract base class of the simplified KMIP object hierarchy.
@@ -514,9 +523,9 @@ class Key(CryptographicObject):
                     self._kdw_eki_cp_initial_counter_value
             }
         }
-        if not any(encryption_key_info['cryptographic_parameters'].values()):
+        if not _any_set(encryption_key_info['cryptographic_parameters']):
             encryption_key_info['cryptographic_parameters'] = {}
-        if not any(encryption_key_info.values()):
+        if not _any_set(encryption_key_info):
             encryption_key_info = {}
 
         mac_sign_key_info = {
@@ -541,9 +550,9 @@ class Key(CryptographicObject):
                     self._kdw_mski_cp_initial_counter_value
             }
         }
-        if not any(mac_sign_key_info['cryptographic_parameters'].values()):
+        if not _any_set(mac_sign_key_info['cryptographic_parameters']):
             mac_sign_key_info['cryptographic_parameters'] = {}
-        if not any(mac_sign_key_info.values()):
+        if not _any_set(mac_sign_key_info):
             mac_sign_key_info = {}
 
         key_wrapping_data['wrapping_method'] = self._kdw_wrapping_method
@@ -552,7 +561,7 @@ class Key(CryptographicObject):
         key_wrapping_data['mac_signature'] = self._kdw_mac_signature
         key_wrapping_data['iv_counter_nonce'] = self._kdw_iv_counter_nonce
         key_wrapping_data['encoding_option'] = self._kdw_encoding_option
-        if not any(key_wrapping_data.values()):
+        if not _any_set(key_wrapping_data):
             key_wrapping_data = {}
 
         return key_wrapping_data
